@@ -88,6 +88,18 @@ class G:
             lambda: "(%s, *%s)" % (E(), A()),
             lambda: "[*%s, %s]" % (A(), E()),
             lambda: "{**{'p': %s}, 'q': %s}" % (E(), E()),
+            # mapping / iterable unpacking of chaos objects (non-dict sources, duplicate keywords 'k')
+            lambda: "%s(**%s)" % (A(), A()),
+            lambda: "%s(%s, **%s)" % (A(), E(), A()),
+            lambda: "%s(k=%s, **%s)" % (A(), E(), A()),
+            lambda: "%s(**{'p': %s}, **%s)" % (A(), E(), A()),
+            lambda: "%s(**{'k': %s}, **%s)" % (A(), E(), A()),
+            lambda: "%s(**%s, **%s)" % (A(), A(), A()),
+            lambda: "{**%s, 'q': %s}" % (A(), E()),
+            lambda: "{'k': %s, **%s}" % (E(), A()),
+            lambda: "%s(*%s)" % (A(), A()),
+            lambda: "%s(%s, *%s, k=%s)" % (A(), E(), A(), E()),
+            lambda: "[*%s, *%s]" % (A(), A()),
         ]
         scalar_choices = [
             lambda: "len(%s)" % O(),
@@ -241,7 +253,7 @@ def run_case(mod, fi, plan, ch, check_refs):
     """Run f<fi> under plan; returns dict with outcome, log, and (for the SUT) the invariant report."""
     fn = getattr(mod, "f%d" % fi)
     gc.collect()
-    args = [ch.Ch(3), ch.Ch(4), ch.Ch(5)]
+    args = [ch.Ch(3), ch.ChM(4), ch.Ch(5)]
     base_live = ch.LIVE[0]
     rc_before = [sys.getrefcount(a) for a in args]
     ch.reset({int(k): True for k in plan})
@@ -297,7 +309,12 @@ def check_case(ms, fi, plan, pair):
                 v = {"klass": "injected-exception-not-propagated", "detail": {"expected": ["raise", "Inj", [k]], "got": rs["outcome"]}}
         elif fired:
             rm = run_case(model, fi, plan, ch, False)
-            if rm["log"][:k + 1] != rs["log"][:k + 1]:
+            # "the k-th call" must denote the same call in both: the logs have to agree up to the LAST fault that fired
+            # in either run (with two faults, a divergence between the first and the second one also makes the second
+            # fault land on different calls)
+            fired_ks = [int(x) for x in plan if int(x) < max(rs["ncalls"], rm["ncalls"])]
+            kl = max(fired_ks) if fired_ks else k
+            if rm["log"][:kl + 1] != rs["log"][:kl + 1]:
                 od = True       # evaluation order differs before the fault: C20's business, not compared
             else:
                 # only the fate of the injected exception is this property's business: does Inj(k) escape, and which one
